@@ -76,7 +76,10 @@ TEXT_FIXED = ["-", "nan", "None", "1.5", "12", "k:", "**x", ":a", " u ", "x" * 4
 FLOATS_FIXED = [0.0, -0.0, 1.0, 2.0, -3.0, 2.5, 0.1, 1e20, 1e15, 1e16, -1e-7, 123456.789, 3.14159265358979,
                 1e-300, 1e300, 999999999999999.0, 0.001, 100.0, float("nan")]
 INTS_FIXED = [0, 1, -1, 2, 10, -17, 123456789, 999999999999999, -999999999999999]
-PATTERNS = [None, None, r"", r"in", r"S", r"[a-z]", r".*t", r"data$", r"[A-Z]", r"x1|out", r"\d", r"nomatch"]
+# names colliding (also ignoring case) with the title openpyxl gives its default sheet, and their de-duplicated forms
+DEFAULT_TITLE_NAMES = ["Sheet", "sheet", "SHEET", "Sheet1", "Sheet11", "Sheet2"]
+PATTERNS = [None, None, r"", r"in", r"S", r"[a-z]", r".*t", r"data$", r"[A-Z]", r"x1|out", r"\d", r"nomatch",
+            r"Sheet$", r"Sheet1", r"(?i)sheet$", r"Sheet\d+$"]
 
 
 def classify_py(s):
@@ -189,8 +192,9 @@ def gen_table(rng, k):
 def gen_sheets(rng):
     n = rng.choice([1, 1, 2, 2, 3])
     names = []
+    pool = DEFAULT_TITLE_NAMES if rng.random() < 0.3 else SHEET_NAMES + DEFAULT_TITLE_NAMES
     while len(names) < n:
-        s = rng.choice(SHEET_NAMES)
+        s = rng.choice(pool)
         if s.lower() not in [x.lower() for x in names]:
             names.append(s)
     k = 0
@@ -923,6 +927,15 @@ def fixed_cases(seed):
                           "sheets": [{"name": "S", "tables": tabs}, {"name": "Other", "tables": [r] if i % 2 else []}],
                           "styles": st, "sep": sep, "target": "bytes" if i % 2 else "path",
                           "pattern": None if i % 4 else "S"})
+    # sheet names around openpyxl's default sheet title: every requested name must come back as it was given
+    for i, names in enumerate([["Sheet"], ["sheet"], ["SHEET", "Sheet1"], ["Sheet", "Sheet1", "Sheet11"],
+                               ["Sheet1", "Sheet"], ["Sheet2", "sheet", "Sheet11"], ["Sheet11", "Sheet1", "SHEET"]]):
+        for pat in (None, r"Sheet$", r"Sheet1", r"(?i)sheet$"):
+            if pat is not None and (i + len(pat)) % 2:
+                continue
+            cases.append({"seed": seed, "index": "names:%d:%s" % (i, pat), "styles": "True" if i % 2 else "False",
+                          "sheets": [{"name": n, "tables": [r if j % 2 == 0 else t1]} for j, n in enumerate(names)],
+                          "sep": 1 + i % 3, "target": "bytes" if i % 2 else "path", "pattern": pat})
     return cases
 
 
